@@ -2346,6 +2346,16 @@ impl Zeroconf {
             return vec![];
         }
 
+        // Withdraw the records under the names they were announced with: after a
+        // conflict the instance and/or host name on this interface has been changed.
+        let registry = self.dns_registry_map.get(&intf.index);
+        let fullname = registry.map_or(info.get_fullname(), |r| {
+            r.resolve_name(info.get_fullname())
+        });
+        let hostname = registry.map_or(info.get_hostname(), |r| {
+            r.resolve_name(info.get_hostname())
+        });
+
         let mut out = DnsOutgoing::new(FLAGS_QR_RESPONSE | FLAGS_AA);
         out.add_answer_at_time(
             DnsPointer::new(
@@ -2353,7 +2363,7 @@ impl Zeroconf {
                 RRType::PTR,
                 CLASS_IN,
                 0,
-                info.get_fullname().to_string(),
+                fullname.to_string(),
             ),
             0,
         );
@@ -2366,7 +2376,7 @@ impl Zeroconf {
                     RRType::PTR,
                     CLASS_IN,
                     0,
-                    info.get_fullname().to_string(),
+                    fullname.to_string(),
                 ),
                 0,
             );
@@ -2374,19 +2384,19 @@ impl Zeroconf {
 
         out.add_answer_at_time(
             DnsSrv::new(
-                info.get_fullname(),
+                fullname,
                 CLASS_IN | CLASS_CACHE_FLUSH,
                 0,
                 info.get_priority(),
                 info.get_weight(),
                 info.get_port(),
-                info.get_hostname().to_string(),
+                hostname.to_string(),
             ),
             0,
         );
         out.add_answer_at_time(
             DnsTxt::new(
-                info.get_fullname(),
+                fullname,
                 CLASS_IN | CLASS_CACHE_FLUSH,
                 0,
                 info.generate_txt(),
@@ -2407,7 +2417,7 @@ impl Zeroconf {
         for address in if_addrs {
             out.add_answer_at_time(
                 DnsAddress::new(
-                    info.get_hostname(),
+                    hostname,
                     ip_address_rr_type(&address),
                     CLASS_IN | CLASS_CACHE_FLUSH,
                     0,
